@@ -32,7 +32,7 @@ FAMILIES = {
         mc=("MC_Req", "MC_Req.cfg", {"quick": {"ReqSet": '"small"'}, "thorough": {"ReqSet": '"full"'}}),
         gens=[("Gen_Req", "Gen_Req.cfg", "bfs", {"quick": dict(depth=1, consts={"ReqSet": '"small"'}),
                                                "thorough": dict(depth=1, consts={"ReqSet": '"full"'})})],
-        replays=[dict(mode="instr", controls="", swap=False), dict(mode="app", controls="", swap=False)]),
+        replays=[dict(mode="instr", controls="", swap=False, extra=["-parseobs"]), dict(mode="app", controls="", swap=False)]),
     "FAULT": dict(
         mc=("MC_Fault", "MC_Fault.cfg", {"quick": {"FaultSet": '"single"', "MaxDepth": "2"}, "thorough": {"FaultSet": '"pairs"', "MaxDepth": "2"}}),
         gens=[("Gen_Fault", "Gen_Fault.cfg", "bfs", {"quick": dict(depth=1, consts={"FaultSet": '"single"', "GenSet": '"clean"'}),
@@ -50,7 +50,7 @@ FAMILIES = {
         mc=("MC_Parse", "MC_Parse.cfg", {"quick": {"ParseSet": '"small"', "NRandom": "20"}, "thorough": {"ParseSet": '"full"', "NRandom": "400"}}),
         gens=[("Gen_Parse", "Gen_Parse.cfg", "bfs", {"quick": dict(depth=1, consts={"ParseSet": '"small"', "NRandom": "20"}),
                                                    "thorough": dict(depth=1, consts={"ParseSet": '"full"', "NRandom": "400"})})],
-        replays=[dict(mode="app", controls="", swap=False)]),
+        replays=[dict(mode="app", controls="", swap=False, extra=["-parseobs"])]),
     "IDENT": dict(
         mc=("MC_Ident", "MC_Ident.cfg", {"quick": {"IdentSet": '"small"'}, "thorough": {"IdentSet": '"full"'}}),
         gens=[("Gen_Ident", "Gen_Ident.cfg", "bfs", {"quick": dict(depth=2, consts={"IdentSet": '"small"'}),
@@ -60,13 +60,41 @@ FAMILIES = {
         mc=("MC_Genesis", "MC_Genesis.cfg", {"quick": {"MaxDepth": "1"}, "thorough": {"MaxDepth": "2"}}),
         gens=[("Gen_Genesis", "Gen_Genesis.cfg", "bfs", {"quick": dict(depth=1, consts={}), "thorough": dict(depth=1, consts={})})],
         replays=[dict(mode="app", controls="nopause", swap=False, extra=[])]),
+    "DENOM": dict(
+        mc=("MC_Denom", "MC_Denom.cfg", {"quick": {"MaxDepth": "1"}, "thorough": {"MaxDepth": "1"}}),
+        gens=[("Gen_Denom", "Gen_Denom.cfg", "bfs", {"quick": dict(depth=1, consts={}), "thorough": dict(depth=1, consts={})})],
+        replays=[dict(mode="instr", controls="", swap=False), dict(mode="app", controls="", swap=False)]),
+    "PASS": dict(
+        mc=("MC_Pass", "MC_Pass.cfg", {"quick": {"MaxDepth": "2"}, "thorough": {"MaxDepth": "3"}}),
+        gens=[("Gen_Pass", "Gen_Pass.cfg", "bfs", {"quick": dict(depth=1, consts={}), "thorough": dict(depth=2, consts={})}),
+              ("Gen_Pass", "Gen_Pass.cfg", "sim", {"quick": dict(num=300, depth=8, consts={}, seeds=1), "thorough": dict(num=2000, depth=12, consts={}, seeds=3)})],
+        replays=[dict(mode="app", controls="", swap=False, extra=["-diff"])]),
+    "STATS": dict(
+        mc=("MC_Stats", "MC_Stats.cfg", {"quick": {"MaxDepth": "2", "StatSet": '"small"'}, "thorough": {"MaxDepth": "3", "StatSet": '"full"'}}),
+        gens=[("Gen_Stats", "Gen_Stats.cfg", "bfs", {t: dict(depth=1, consts={"GenSet": '"%s"' % gs, "StatSet": ss}) for t, ss in (("quick", '"small"'), ("thorough", '"full"'))})
+              for gs in ("empty", "one", "mixed", "seeded")]
+             + [("Gen_Stats", "Gen_Stats.cfg", "sim", {"quick": dict(num=3, depth=12, consts={"StatSet": '"small"'}, seeds=1),
+                                                     "thorough": dict(num=20, depth=30, consts={"StatSet": '"full"'}, seeds=3)})],
+        replays=[dict(mode="app", controls="", swap=False)]),
+    "DET": dict(
+        mc=("MC_Funds", "MC_Funds.cfg", {"quick": {"MaxDepth": "1"}, "thorough": {"MaxDepth": "2"}}),
+        gens=[("Gen_Funds", "Gen_Funds.cfg", "sim", {"quick": dict(num=150, depth=8, consts={"GenSet": '"full"'}, seeds=1),
+                                                   "thorough": dict(num=1500, depth=12, consts={"GenSet": '"full"'}, seeds=2)}),
+              ("Gen_Pause", "Gen_Pause.cfg", "sim", {"quick": dict(num=100, depth=10, consts={"GenSet": '"full"', "PauseSet": '"full"'}, seeds=1),
+                                                   "thorough": dict(num=1000, depth=20, consts={"GenSet": '"full"', "PauseSet": '"full"'}, seeds=2)}),
+              ("Gen_Parse", "Gen_Parse.cfg", "bfs", {"quick": dict(depth=1, consts={"ParseSet": '"small"', "NRandom": "5"}),
+                                                   "thorough": dict(depth=1, consts={"ParseSet": '"full"', "NRandom": "50"})}),
+              ("Gen_Req", "Gen_Req.cfg", "bfs", {"quick": dict(depth=1, consts={"ReqSet": '"small"'}), "thorough": dict(depth=1, consts={"ReqSet": '"full"'})}),
+              ("Gen_Genesis", "Gen_Genesis.cfg", "bfs", {"quick": dict(depth=1, consts={}), "thorough": dict(depth=1, consts={})}),
+              ("Gen_Pass", "Gen_Pass.cfg", "bfs", {"quick": dict(depth=1, consts={}), "thorough": dict(depth=1, consts={})})],
+        replays=[dict(mode="app", controls="", swap=False, extra=["-digests"], repeat={"quick": 2, "thorough": 4})]),
     "FEES": dict(
         mc=("MC_Fees", "MC_Fees.cfg", {"quick": {"FeeSet": '"small"'}, "thorough": {"FeeSet": '"full"'}}),
         shards={"quick": [{"Amounts": "{%d}" % a} for a in (1, 3, 10000, 10001, 199999)],
                 "thorough": [{"Amounts": "{%d}" % a} for a in (1, 2, 3, 9999, 10000, 10001, 19999, 20000, 199999)]},
         gens=[("Gen_Fees", "Gen_Fees.cfg", "bfs", {"quick": dict(depth=1, consts={"FeeSet": '"small"'}),
                                                  "thorough": dict(depth=1, consts={"FeeSet": '"full"'})})],
-        mode="app", controls="noacts", swap=False),
+        replays=[dict(mode="app", controls="noacts", swap=False, extra=["-parseobs"])]),
 }
 
 # Properties: families that decide them, conformance groups reported with them, evidence texts.
@@ -77,7 +105,7 @@ PROPS = {
                 rule="non-trivial = a successful orbiter transfer (success acknowledgement); distinct = distinct (abstract pre-state, abstract input)"),
     "C11": dict(families=["FUNDS"], groups=["ack", "bal", "stats"], level="model_checking",
                 rule="non-trivial = an orbiter packet received while the orbiter account holds coins, with the paired control run on the emptied account executed; distinct = distinct (pre-state, input)"),
-    "C12": dict(families=["FUNDS"], groups=["stats"], level="model_checking",
+    "C12": dict(families=["FUNDS", "STATS", "ORDER"], groups=["stats"], level="model_checking",
                 rule="non-trivial = a successful orbiter transfer (statistics must change by exactly that transfer); all other steps are checked for 'unchanged'; distinct = distinct (pre-state, input)"),
     "C03": dict(families=["FAULT", "FUNDS"], groups=["ack", "fired"], level="fault_enumeration", exhaustive=True,
                 rule="FAULT: every (payload shape x armed fault set x clean/dusty state) is one execution with fault wrappers around the real dependencies; FUNDS: naturally occurring failures; non-trivial = a reception in which an armed fault actually fired or the transfer was refused; distinct = distinct (pre-state, input incl. fault set)"),
@@ -89,6 +117,16 @@ PROPS = {
                 rule="one evaluation = one (protocol, counterparty string) pair sent through every identifier entry point; the evidence counts steps (batches of all strings per protocol and pre-state); non-trivial = every batch; distinct = distinct (pre-state, protocol)"),
     "C17": dict(families=["GENESIS", "PAUSE"], groups=["genesis", "pause", "params", "stats"], level="model_checking", props=["C17", "C17b"],
                 rule="non-trivial = a genesis document accepted by validation (must initialise), or a re-import step inside a history (export -> validate -> init on a cleared store -> export must be the identity); distinct = distinct (pre-state, input)"),
+    "C15": dict(families=["PARSE", "REQ", "FEES"], groups=["parse"], level="model_checking", exhaustive=True,
+                rule="every document of the mutation grid (incl. unknown fields at every level, extra/duplicated root keys, wrong type URLs), of the (protocol id x attribute type x action id) grid and of the fee grid is handed to the real parser twice (acceptance, purity) and, when the public constructors accept the abstract payload, marshalled -> parsed -> compared -> re-marshalled; non-trivial = every such document; distinct = distinct abstract input"),
+    "C16": dict(families=["DENOM"], groups=["ack", "bal"], level="model_checking", exhaustive=True,
+                rule="every grid point (denom class x base x channel x amount encoding x fee/no fee) is one packet; non-trivial = a packet whose token is not a returning native (must be refused) or an accepted packet whose ICS-20 credit was recorded by the pass-through decorator; distinct = distinct abstract input x wiring"),
+    "C07": dict(families=["PASS"], groups=["ack", "bal", "pause", "params", "stats"], level="exploration",
+                rule="every non-orbiter packet / acknowledgement / timeout of the alphabet, alone and inside random histories that move the orbiter state, executed on two branches of the same state (through the orbiter middleware and through the wrapped transfer application alone); non-trivial = each such differential execution; distinct = distinct (pre-state, input)"),
+    "C13": dict(families=["STATS"], groups=["qstats"], level="model_checking",
+                rule="one evaluation = one complete query walk (all pages) or one direct lookup against the ledger observed in the same step; non-trivial = every query step; distinct = distinct (ledger, query)"),
+    "C19": dict(families=["DET"], groups=[], level="exploration",
+                rule="the same generated histories (random FUNDS and PAUSE histories, the parse-mutation grid, the request grid, the genesis-document grid, the pass-through grid) replayed in R independent OS processes (R=2 quick, 4 thorough; different GOMAXPROCS/GC settings, Go randomises map iteration per process); per step a digest of acknowledgement bytes, ordered events, exported orbiter state, full bank export and all-store hash; non-trivial = a step with peer digests; distinct = distinct (pre-state, input); error-branch coverage of the specification by the replayed steps is reported"),
     "C04": dict(families=["FEES"], groups=["ack", "bal"], level="model_checking", exhaustive=True,
                 rule="every grid point (amount x fee-entry list) is one packet through the real application; non-trivial = the payload carries a fee action that parses; distinct = distinct abstract input"),
     "C05": dict(families=["REQ"], groups=["ack", "req"], level="model_checking", exhaustive=True,
@@ -163,6 +201,9 @@ def run_family(fam, tier, seed, wd, specdir, report):
         tagged = [{"b": "%s@%s" % (b["b"], R["mode"]), "steps": b["steps"]} for b in behs]
         trace, dt = replay(tagged, wd, "%s-%s" % (fam, R["mode"]), mode=R["mode"], controls=R["controls"], extra=R.get("extra"))
         log("replayed %d behaviours in the real code (%s mode) in %.0fs" % (len(tagged), R["mode"], dt))
+        nrep = (R.get("repeat") or {}).get(tier, 1)
+        if nrep > 1:
+            attach_peers(trace, tagged, wd, "%s-%s" % (fam, R["mode"]), R, nrep)
         recs, evs, dt = validate(specdir, trace, R.get("swap", False))
         log("validated %d observed steps against the specification in %.0fs" % (len(recs), dt))
         off = len(all_evs)
@@ -176,7 +217,28 @@ def run_family(fam, tier, seed, wd, specdir, report):
     return behs, all_recs, all_evs, by_id
 
 
-def attribute(prop, recs, evs, behs_by_id, wd, specdir, report):
+def attach_peers(trace, tagged, wd, tag, R, nrep):
+    """C19: replay the same histories in further independent OS processes; their per-step digests are
+    attached to the first trace as "peers" (data plumbing only; TLC compares them)."""
+    peers = []
+    for k in range(1, nrep):
+        t2, dt2 = replay(tagged, wd, "%s-rep%d" % (tag, k), mode=R["mode"], controls=R["controls"], extra=R.get("extra"),
+                         env={"GOMAXPROCS": str(1 + 3 * k), "GOGC": str(50 * k)})
+        peers.append([json.loads(l) for l in open(t2)])
+        os.remove(t2)
+        log("replayed again in an independent process (#%d) in %.0fs" % (k + 1, dt2))
+    lines = [json.loads(l) for l in open(trace)]
+    for pl in peers:
+        if len(pl) != len(lines):
+            raise Machinery("replays have different lengths")
+    with open(trace, "w") as f:
+        for i, ln in enumerate(lines):
+            ln["obs"]["x"]["peers"] = [pl[i]["obs"]["x"]["dig"] if (pl[i]["b"], pl[i]["i"]) == (ln["b"], ln["i"]) else "MISALIGNED" for pl in peers]
+            ln["obs"]["x"]["peerText"] = [pl[i]["res"]["text"][:400] for pl in peers if pl[i]["obs"]["x"]["dig"] != ln["obs"]["x"]["dig"]]
+            f.write(json.dumps(ln) + "\n")
+
+
+def attribute(prop, recs, evs, behs_by_id, wd, specdir, report, tier="quick"):
     """Turn validator records into verdicts for `prop`."""
     P = PROPS[prop]
     known = load_known()
@@ -241,6 +303,7 @@ def attribute(prop, recs, evs, behs_by_id, wd, specdir, report):
             break
         b, R = behs_by_id[r["b"]]
         rp = dict(property=prop, mode=R["mode"], controls=R["controls"], swap=R.get("swap", False), extra=R.get("extra"),
+                  repeat=(R.get("repeat") or {}).get(tier, 1),
                   behaviour={"b": "replay", "steps": b["steps"][:r["i"]]}, step=r["i"],
                   concrete=ev.get("concrete"), input=in_summary(ev["in"]), result=ev["res"])
         os.makedirs(os.path.join(WORK, "replay"), exist_ok=True)
@@ -262,6 +325,9 @@ def do_replay(path, quiet=False):
     try:
         specdir = prep_spec(wd)
         trace, _ = replay([rp["behaviour"]], wd, "replay", mode=rp["mode"], controls=rp["controls"], extra=rp.get("extra"))
+        if rp.get("repeat", 1) > 1:
+            # a non-determinism may need several attempts to show again
+            attach_peers(trace, [rp["behaviour"]], wd, "replay", rp, max(4, rp["repeat"]))
         recs, evs, _ = validate(specdir, trace, rp.get("swap", False), parallel=1)
         last = recs[-1]
         hit = bool(set(PROPS.get(rp["property"], {}).get("props", [rp["property"]])) & set(last["viol"]))
@@ -270,6 +336,8 @@ def do_replay(path, quiet=False):
             log("replay of %s: step %d: %s" % (path, last["i"], in_summary(ev["in"])))
             log("  concrete: %s" % json.dumps(ev.get("concrete"))[:1500])
             log("  result:   %s" % json.dumps(ev["res"])[:1500])
+            if ev["obs"].get("x", {}).get("peerText"):
+                log("  other process: %s" % json.dumps(ev["obs"]["x"]["peerText"])[:1500])
             log("  violated on the observed step: %s; spec divergence groups: %s" % (last["viol"], last["mism"]))
         return hit
     finally:
@@ -295,7 +363,8 @@ def check(prop, tier):
     samples = []
     for fam in P["families"]:
         behs, recs, evs, by_id = run_family(fam, tier, seed, wd, specdir, report)
-        all_viol += attribute(prop, recs, evs, by_id, wd, specdir, report)
+        all_viol += attribute(prop, recs, evs, by_id, wd, specdir, report, tier)
+        report.setdefault("branches", set()).update(r["why"] or "success" for r in recs)
         # samples: a few actual non-trivial observed steps
         k = 0
         for r in recs:
@@ -316,6 +385,7 @@ def check(prop, tier):
             traces_validated_against_impl=report["traces_validated"], samples=samples,
             evaluations=report["evaluations"], distinct_nontrivial=nontriv, rule=P["rule"],
             model_checking=report["mc"], families=report["families"],
+            spec_branches_reached=sorted(report.get("branches", [])),
             spec_divergences=report.get("divergences", {}), known_findings=report.get("known_findings", {}),
             exhaustive=bool(P.get("exhaustive", False))),
         assumptions=ASSUMPTIONS, wall_s=round(time.time() - t0, 1), violations=len(all_viol))
